@@ -22,7 +22,12 @@ propagatorAtArbT_tendsto_right '''.split() + [
     # the propagators do not depend on which eigen-decomposition LAPACK returns (module Props/C13Prop)
     'FFVerif.C13.segment_propagator_unique', 'FFVerif.C13.piecewise_unique',
     'FFVerif.C13.propagators_unique']
-LEAN_MODULES = ['FFVerif.Props.C02', 'FFVerif.Props.C13Prop', 'FFVerif.Props.C06Def', 'FFVerif.Props.C04Tile']
+LEAN_MODULES = ['FFVerif.Props.C02', 'FFVerif.Props.C13Prop', 'FFVerif.Props.C06Def', 'FFVerif.Props.C04Tile',
+                'FFVerif.Props.C01Unique']
+# what two admissible eigh outputs of one Hamiltonian can differ in (module C01Unique)
+THEOREMS = THEOREMS + [
+    'FFVerif.EighUniqueAux.trans_support', 'FFVerif.EighUniqueAux.eigenvalue_mem', 'FFVerif.EighUniqueAux.eigenvalues_perm',
+    'FFVerif.C01.eigvals_perm', 'FFVerif.C01.Useg_eigh_independent', 'FFVerif.C01.Useg_eq_exp']
 # times and propagators of concatenated / periodically repeated pulses (module C04Tile)
 THEOREMS = THEOREMS + [
     'FFVerif.C04Tile.times_concat', 'FFVerif.C04Tile.tau_concat', 'FFVerif.C04Tile.times_tile',
